@@ -16,6 +16,8 @@ pub enum GitOp {
     Delete { path: String },
     /// the file becomes empty (0 bytes): a content of its own, not a deletion
     Empty { path: String },
+    /// a symbolic link to an existing directory (git sees one file-like entry; opening it yields a directory)
+    LinkDir { path: String, to: String },
     /// the file is rewritten with the bytes it already has (only its stat data changes)
     RewriteSame { path: String },
     Move { from: String, to: String, git: bool, edit: bool },
@@ -89,6 +91,9 @@ impl RGit {
                 }
             }
             GitOp::RewriteSame { .. } => {}
+            GitOp::LinkDir { path, to } => {
+                self.wt.insert(path.clone(), format!("symlink -> {}", to));
+            }
             GitOp::Move { from, to, git, edit } => {
                 if let Some(c) = self.wt.remove(from) {
                     if *git {
@@ -252,12 +257,14 @@ pub struct HistGen<'a> {
     pub big_left: usize,
     /// emptying files repeats a content (""), which C07's "content it never had" clause must avoid
     pub allow_empty: bool,
+    /// at most this many symbolic links to directories per history (never touched again once created)
+    pub links_left: usize,
     n_created: usize,
 }
 
 impl<'a> HistGen<'a> {
     pub fn new(rng: &'a mut Rng, model: RGit, dirs: Vec<String>, protected: BTreeSet<String>) -> Self {
-        HistGen { rng, model, dirs, protected, long_names: false, bulk_left: 0, big_left: 0, allow_empty: false, n_created: 0 }
+        HistGen { rng, model, dirs, protected, long_names: false, bulk_left: 0, big_left: 0, allow_empty: false, links_left: 0, n_created: 0 }
     }
     fn new_path(&mut self, ignored: bool) -> String {
         let d = self.dirs[self.rng.below(self.dirs.len())].clone();
@@ -290,6 +297,16 @@ impl<'a> HistGen<'a> {
         for _ in 0..20 {
             let wt: BTreeSet<String> = self.model.wt.keys().filter(|p| !self.model.is_ignored(p)).cloned().collect();
             let tracked_wt: BTreeSet<String> = wt.iter().filter(|p| self.model.index.contains_key(*p)).cloned().collect();
+            if self.links_left > 0 && self.rng.chance(1, 5) {
+                self.links_left -= 1;
+                self.n_created += 1;
+                let d = self.dirs[self.rng.below(self.dirs.len())].clone();
+                let path = format!("{}/{}dirlink", d, self.n_created);
+                self.protected.insert(path.clone());
+                let op = GitOp::LinkDir { path, to: self.dirs[self.rng.below(self.dirs.len())].clone() };
+                self.model.apply(&op);
+                return op;
+            }
             if self.bulk_left > 0 && self.rng.chance(1, 4) {
                 self.bulk_left -= 1;
                 self.n_created += 1;
@@ -377,6 +394,13 @@ pub fn exec_repo_op(w: &mut World, op: &GitOp, model_after: &RGit) -> Result<(),
                 w.write_bytes(path, b"")?;
             }
             Ok(())
+        }
+        GitOp::LinkDir { path, to } => {
+            let p = w.root.join(path);
+            if let Some(d) = p.parent() {
+                std::fs::create_dir_all(d).map_err(|e| e.to_string())?;
+            }
+            std::os::unix::fs::symlink(w.root.join(to), &p).map_err(|e| format!("symlink {}: {}", path, e))
         }
         GitOp::RewriteSame { path } => {
             let p = w.root.join(path);
